@@ -386,6 +386,8 @@ var pinnedProbes = []pinned{
 	{"x = {set a(b, c){}}", 13, false, true},
 	{"x = {a: 1, get a(){}}", 13, false, true},
 	{"x = {get a(){}, get a(){}}", 13, false, true},
+	{"x = {0x: 1}", 16, false, true},
+	{"x = {1e+: 1}", 16, false, true},
 	{"x = /a/ g", 15, false, true},
 	{"x = /a/\ng", 15, false, true},
 	{"switch(1){", 14, false, true},
@@ -421,6 +423,7 @@ func main() {
 			h.addTree(res, src, "pinned", nil)
 		}
 	}
+	h.literalStream()
 	for env.Count() < env.N {
 		switch k := r.Intn(20); {
 		case k < 8: // generated program, verdict decided by the Coq model/spec
